@@ -10,6 +10,8 @@ use std::collections::BTreeMap;
 pub enum FsAct {
     Write { path: String, content: String },
     Delete { path: String },
+    /// The user edits the user dictionary by hand: a word is appended to the file.
+    AppendWord { path: String, word: String },
 }
 
 #[derive(Clone, Debug, Serialize, Deserialize, PartialEq)]
@@ -139,6 +141,8 @@ pub struct Client {
     /// the editor answers workspace/configuration and client/registerCapability with an error
     pub config_errors: bool,
     pub error_answers: u64,
+    /// words the user appended to a dictionary file by hand
+    pub hand_edits: u64,
     /// answers given out of request order
     pub answers_out_of_order: u64,
     pub last_answered_seq: u64,
@@ -319,6 +323,26 @@ impl Client {
                     for d in self.docs.iter_mut().filter(|d| &d.path == path) {
                         d.disk = None;
                     }
+                }
+                FsAct::AppendWord { path, word } => {
+                    if let Some(parent) = std::path::Path::new(path).parent() {
+                        let _ = std::fs::create_dir_all(parent);
+                    }
+                    let mut content = std::fs::read_to_string(path).unwrap_or_default();
+                    if !content.is_empty() && !content.ends_with('\n') {
+                        content.push('\n');
+                    }
+                    content.push_str(word);
+                    content.push('\n');
+                    let _ = std::fs::write(path, content);
+                    // nobody tells the server: what it shows for the open documents is as old as
+                    // their last update (the message this action travels with updates one of them)
+                    for d in self.docs.iter_mut() {
+                        d.dict_tainted = true;
+                    }
+                    self.hand_edits += 1;
+                    let id = -1_000_000 - self.hand_edits as i64;
+                    self.added.push(AddedWord { word: word.clone(), file: None, req_id: id, acked: true, faulted: false });
                 }
             }
         }
